@@ -70,10 +70,16 @@ def uint_bad(width: int) -> list[int]:
     return [-1, 1 << (8 * width)]
 
 
+LONG_RECORD = 4096  # one byte more than the 4095 bytes a single ISO-TP (classic CAN) message can carry
+
+
 def bytes_alphabet(minlen: int, tier: str) -> list[bytes]:
+    """record lengths 0, 1, 2, 300 and - beyond every 12-bit length limit - 4096 (thorough also 5000)."""
     vals = [b"", b"\x5a", b"\x00\xff", bytes(range(256)) + bytes(44)]
+    if tier != "small":
+        vals.append(bytes(i % 251 for i in range(LONG_RECORD)))
     if tier == "thorough":
-        vals += [b"\x00", b"\xff\xff\xff"]
+        vals += [b"\x00", b"\xff\xff\xff", bytes((7 * i) % 256 for i in range(5000))]
     return [v for v in vals if len(v) >= minlen]
 
 
@@ -231,11 +237,17 @@ class SUBQ(Field):
     def alphabet(self, tier: str) -> list[int]:
         if self.fixed is not None:
             return [self.fixed]
-        vals = [0, 1, 2, 0x3F, 0x40, 0x7D, 0x7E, 0x7F] if tier == "thorough" else [1, 2, 0x40, 0x41, 0x7D, 0x7E]
+        # the boundaries 0x00 and 0x7F are part of every tier: combined with both suppress settings they give the
+        # wire bytes 0x00, 0x80, 0x7F, 0xFF.  (For SecurityAccess they are ISOSAEReserved - see ``reserved`` - but
+        # their layout is defined like that of any other value.)
+        vals = [0, 1, 2, 0x3F, 0x40, 0x41, 0x7D, 0x7E, 0x7F] if tier == "thorough" else [0, 1, 2, 0x40, 0x41, 0x7D, 0x7E, 0x7F]
         if self.parity is not None:
-            # 0x00 and 0x7F are ISOSAEReserved for SecurityAccess: neither claimed valid nor invalid
-            vals = [v for v in vals if v % 2 == self.parity and v not in (0, 0x7F)]
+            vals = [v for v in vals if v % 2 == self.parity]
         return vals
+
+    def reserved(self) -> tuple[int, ...]:
+        """values a constructor may refuse although they are encodable (ISOSAEReserved)"""
+        return (0x00, 0x7F) if self.parity is not None else ()
 
     def bad(self) -> list[int]:
         out = [-1, 0x80, 0xFF]
@@ -990,7 +1002,13 @@ def _rep_rows(rep: REP, ctx_widths: dict[str, int] | None, tier: str, n: int, pa
                 top = (1 << (8 * ctx_widths[f.part])) - 1
             else:
                 top = (1 << (8 * f.width)) - 1
-            row.append([0, top, (top // 3) * (i + 1) % (top + 1) or 1][pat])
+            if pat <= 2:
+                row.append([0, top, (top // 3) * (i + 1) % (top + 1) or 1][pat])
+            else:
+                # heterogeneous groups: the j-th field has its widest value in group (j + pat) mod n and a one-byte
+                # value elsewhere, so the maxima of different fields sit in different groups
+                j = len(row)
+                row.append(top if (j + pat) % n == i else (i + 1) % 256)
         rows.append(tuple(row))
     return rows
 
@@ -1012,7 +1030,9 @@ def value_sets(kind: Kind, side: str, tier: str) -> Iterator[dict[str, Any]]:
     def axis(f: Any, widths: dict[str, int] | None) -> list[dict[str, Any]]:
         if isinstance(f, K):
             return [{}]
-        if isinstance(f, U | B):
+        if isinstance(f, B):
+            return [{f.name: v} for v in small(f.alphabet(tier))]
+        if isinstance(f, U):
             return [{f.name: v} for v in small(f.alphabet(atier))]
         if isinstance(f, SUBQ):
             out = []
@@ -1043,7 +1063,7 @@ def value_sets(kind: Kind, side: str, tier: str) -> Iterator[dict[str, Any]]:
             lo = f.min
             hi = min(maxrep, f.max) if f.max is not None else maxrep
             for n in range(lo, hi + 1):
-                pats = [0] if n == 0 else [0, 1, 2]
+                pats = [0] if n == 0 else ([0, 1, 2] if n == 1 else [0, 1, 2, 3, 4])
                 for p in pats:
                     rows = _rep_rows(f, widths, tier, n, p)
                     if f.pairs:
